@@ -1,8 +1,32 @@
-(* Property C01: VCD value changes are reported faithfully.  Pinned so far: the value codec
-   (check_states / write_n_state / n_state_to_bit_string); the end-to-end theorem C01_faithful is not
-   closed - see MANIFEST level_claimed. *)
-From WV Require Import Model.Base Model.Bits Proofs.BitsProofs.
+(* Property C01: VCD value changes are reported faithfully.
+   Pinned: (1) the value codec; (2) vcd_stream_transparent: for the single-threaded body path
+   (read_single_stream_of_values + VcdEncoder + wavemem) a bit-vector variable loads as exactly what the parser's
+   events record - index into the time table, least kind, characters, equal neighbours once - for every body,
+   every identifier lookup, every block capacity; (3) the rendering of a recorded value is its lower-cased
+   characters (write_render_roundtrip).
+   NOT proved: that the byte machine's events are the whitespace-separated tokens of the text (the events are
+   defined by the machine; prefix_events / cut_at_token_boundary in Properties/C15.v are properties of it), reals,
+   strings, and the multi-threaded path (C03).  Those are decided by the correspondence run and the oracle that is
+   computed from the abstract history (MANIFEST level_note). *)
+From WV Require Import Model.Base Model.Bits Model.WaveMem Model.VcdBody Spec.TimeSpec Spec.StoreSpec
+  Proofs.BitsProofs Proofs.StoreProofs Proofs.EncoderProofs Proofs.VcdStreamProofs.
 Open Scope N_scope.
+
+Check vcd_stream_transparent :
+  forall (parse_f64 : list byte -> option (list byte)) (lz_compress : list byte -> list byte)
+         (lz_decompress : list byte -> nat -> option (list byte)),
+  (forall d n, (length d <= n)%nat -> lz_decompress (lz_compress d) n = Some d) ->
+  forall cap, 1 <= cap -> cap <= 65536 ->
+  forall debug tpes lookup input stop_pos e blocks ttb id bits,
+  (1 <= bits)%nat -> nth_error tpes id = Some (EncBits bits) ->
+  read_single_stream parse_f64 lz_compress cap debug tpes lookup input stop_pos true = Ok e ->
+  enc_finish lz_compress e = Ok (blocks, ttb) -> N.of_nat (length ttb) < 4294967296 ->
+  exists ops, ops_of lookup true false (fst (parse_body debug input stop_pos)) = Some ops /\
+    (N.of_nat (count_vcd id ops) * (10 + N.of_nat bits) < 4294967264 ->
+     exists R sig,
+       Forall2 (decodes bits) R (recorded id ops [] false) /\
+       load_signal lz_decompress blocks id (EncBits bits) = Ok sig /\
+       observe_signal sig = outcome_map render_of (dedup R)).
 
 (* a value written with the kind the loader determines for it is rendered back as exactly its
    characters, lower-cased, at its full width - for every width and every accepted character *)
@@ -12,4 +36,10 @@ Check write_render_roundtrip :
                  length packed = div_ceil (length value) (per_byte st) /\
                  n_state_to_bit_string st packed (length value) = Ok (map lower value).
 
+(* the characters render_of reports for a recorded value are the lower-cased characters of its text *)
+Check lookup_ok :
+  forall l s, small_syms l s -> Forall (fun v => v <= 8) s -> lookup_all (lookup_table l) s = Ok (map char_of s).
+
+Print Assumptions vcd_stream_transparent.
 Print Assumptions write_render_roundtrip.
+Print Assumptions lookup_ok.
